@@ -296,7 +296,12 @@ static int cmp_sb (const void *a, const void *b)
   return x->n < y->n ? -1 : x->n > y->n;
 }
 
-/* canonical text of a value, same syntax as the input; mapping entries sorted bytewise */
+mapping_node_t *node_find_in_mapping (mapping_t * m, svalue_t * lv);
+int svalue_to_int (svalue_t * v);
+
+/* canonical text of a value, same syntax as the input; mapping entries sorted bytewise.
+ * Every mapping entry is also looked up through its key: an entry no lookup finds is reported as a line
+ * `lookup-miss <key> ..` in front of the line that prints the value. */
 static void pv (sb_t * o, svalue_t * sv, int depth)
 {
   char tmp[64];
@@ -360,6 +365,21 @@ static void pv (sb_t * o, svalue_t * sv, int depth)
               pv (&items[cnt], &n->values[0], depth + 1);
               sb_puts (&items[cnt], ":");
               pv (&items[cnt], &n->values[1], depth + 1);
+              /* the entry must also be FOUND through its key (m[key]): a node linked into the wrong bucket is listed
+                 by keys() / values() / a re-save, but no lookup reaches it */
+              /* (a NaN key equals nothing, itself included: no mapping ever finds it; its bucket is still checked) */
+              if ((node_find_in_mapping (m, &n->values[0]) != n
+                   && !(n->values[0].type == T_REAL && n->values[0].u.real != n->values[0].u.real))
+                  || i != (svalue_to_int (&n->values[0]) & (int) m->table_size))
+                {
+                  sb_t k = { 0, 0, 0 };
+                  sb_puts (&k, "");
+                  pv (&k, &n->values[0], depth + 1);
+                  fprintf (stderr, "VL lookup-miss %s bucket=%d hash=%d size=%d\n", k.b, i,
+                           svalue_to_int (&n->values[0]) & 0xffff, (int) m->table_size + 1);
+                  fflush (stderr);
+                  free (k.b);
+                }
               cnt++;
             }
         qsort (items, cnt, sizeof (sb_t), cmp_sb);
@@ -595,6 +615,39 @@ static void ensure_obj (void)
   add_ref (c16_ob, "c16");
 }
 
+/* the hash table of a restored mapping whose keys are all integers (their hash is the number itself, shifted):
+ *   tbl size=<buckets> unfilled=<m->unfilled> count=<m->count> <bucket>:<key>,<key>..  (non-empty buckets, chains head first) */
+static void dump_tbl (svalue_t * sv)
+{
+  if (sv->type != T_MAPPING)
+    return;
+  mapping_t *m = sv->u.map;
+  for (int i = 0; i <= (int) m->table_size; i++)
+    for (mapping_node_t * n = m->table[i]; n; n = n->next)
+      if (n->values[0].type != T_NUMBER)
+        return;
+  sb_t o = { 0, 0, 0 };
+  char tmp[64];
+  snprintf (tmp, sizeof tmp, "size=%d unfilled=%d count=%d", (int) m->table_size + 1, (int) m->unfilled, (int) m->count);
+  sb_puts (&o, tmp);
+  for (int i = 0; i <= (int) m->table_size; i++)
+    if (m->table[i])
+      {
+        snprintf (tmp, sizeof tmp, " %d:", i);
+        sb_puts (&o, tmp);
+        for (mapping_node_t * n = m->table[i]; n; n = n->next)
+          {
+            snprintf (tmp, sizeof tmp, "%s%lld", n == m->table[i] ? "" : ",", (long long) n->values[0].u.number);
+            sb_puts (&o, tmp);
+          }
+      }
+  fprintf (stderr, "VL tbl %s\n", o.b);
+  fflush (stderr);
+  free (o.b);
+}
+
+static int restore_dump_tbl = 0;	/* rv / rx: print the table of a restored integer-key mapping */
+
 static void do_restore_text (char *text)
 {
   svalue_t arg, ret;
@@ -613,6 +666,8 @@ static void do_restore_text (char *text)
       fprintf (stderr, "VL rest %s\n", o.b);
       fflush (stderr);
       free (o.b);
+      if (restore_dump_tbl)
+        dump_tbl (&ret);
       free_svalue (&ret, "c16");
     }
 }
@@ -823,7 +878,16 @@ static void crash_points (int zeros, int failmode)
 static int c16_cmd (char *line)
 {
   static char *copy = 0;
+  static int started = 0;
   char *tok[16];
+  if (!started)
+    {
+      /* every case runs in its own child: start it without a save file / temporary left by an earlier case, so that
+         a case (and a shrunk replay) means the same whatever ran before it */
+      started = 1;
+      unlink (SAVE_FILE);
+      unlink (SAVE_TMP);
+    }
   free (copy);
   copy = strdup (line);
   int n = vh_split (copy, tok, 16);
@@ -875,7 +939,9 @@ static int c16_cmd (char *line)
       for (size_t i = 0; i < len; i++)
         t[i] = (char) (hexv (h[2 * i]) * 16 + hexv (h[2 * i + 1]));
       t[len] = 0;
+      restore_dump_tbl = 1;
       do_restore_text (t);
+      restore_dump_tbl = 0;
       free (t);
       return 1;
     }
@@ -1012,8 +1078,23 @@ static int c16_cmd (char *line)
   if (!strcmp (tok[0], "so") && n == 2)
     {
       ensure_obj ();
-      vh_out ("so %d", call_so (atoi (tok[1])));
-      out_file ();
+      {
+        size_t bn = 0, an = 0;
+        char *before = read_file (SAVE_FILE, &bn);
+        int r = call_so (atoi (tok[1]));
+        vh_out ("so %d", r);
+        if (r < 0)
+          {
+            /* the save ended with an LPC error: the save file must be what it was */
+            char *after = read_file (SAVE_FILE, &an);
+            int same = (!before && !after) || (before && after && bn == an && !memcmp (before, after, bn));
+            vh_out (same ? "file unchanged" : "file changed");
+            free (after);
+          }
+        else
+          out_file ();
+        free (before);
+      }
       {
         struct stat st;
         if (!strcmp (c16_savename, SAVE_LPC) && stat (SAVE_TMP, &st) == 0)
